@@ -96,6 +96,8 @@ def gen_definition(rng, tag):
     d.tag = tag
     pars = []          # [name, units, default, [lo, hi], type, desc]
     nvol = rng.choice([0, 1, 1, 2, 2, 3])
+    if tag == 0:
+        nvol = max(nvol, 1)      # the first definition of every run is hollow and gets the mesh beyond one kernel invocation
     nsld = rng.randint(0, 2)
     npl = rng.randint(0, 3)
     if nvol + nsld + npl == 0:
@@ -144,7 +146,7 @@ def gen_definition(rng, tag):
     if rng.random() < 0.3:
         d.Iqxy = ("+", gen_expr(rng, iq_vars + ["qx", "qy"], 2, scalars), ("*", ("var", "qx"), ("var", "qy")))
     d.form_volume = ("+", ("num", 1.0), pos_expr(rng, vol_vars, 2)) if vol_vars else None
-    d.shell_volume = ("+", ("num", 0.5), pos_expr(rng, vol_vars, 2)) if vol_vars and rng.random() < 0.4 else None
+    d.shell_volume = ("+", ("num", 0.5), pos_expr(rng, vol_vars, 2)) if vol_vars and (rng.random() < 0.4 or tag == 0) else None
     d.modes = []
     if vol_vars and rng.random() < 0.5:
         d.modes = [pos_expr(rng, vol_vars, 2) for _ in range(rng.randint(1, 3))]
@@ -456,6 +458,8 @@ def main(run):
                     pars[p.name] = p.default * rng.uniform(0.7, 1.3) if rng.random() < 0.8 else p.default
                     pars[p.name] = float(min(max(pars[p.name], p.limits[0]), p.limits[1]))
             kind = rng.choice(["mono", "pd", "pd", "pd2", "pd2", "cut1", "allinvalid" if d.valid else "pd"])
+            if t == 0 and m == 1:
+                kind = "pd"          # corpus: hollow definition x more than 100 mesh points, every run
             pdn = [p.name for p in kp if p.polydisperse]
             if kind in ("pd", "pd2", "cut1") and pdn:
                 for nm in rng.sample(pdn, min(len(pdn), 1 if kind != "pd2" else rng.randint(2, 3))):
